@@ -149,16 +149,61 @@ fn classify<I, T, E>(r: &Result<(I, T), Err<E>>) -> Cls {
 /// the pretty form ({:#?}: one line per field, through an indenting adapter) is several times slower than the compact one; it is produced
 /// for every result whose compact form is at most this long (what goes wrong in a pretty printer depends on the shape of a value -
 /// an empty field, a nesting level - not on its size)
-const PRETTY_LIMIT: usize = 4096;
+const PRETTY_LIMIT: usize = 2048;
+
+/// a writer that fails once its capacity is used up (fmt::Write may fail; a Debug impl then has to pass the error on, not unwrap it)
+struct Bounded {
+    left: usize,
+}
+impl std::fmt::Write for Bounded {
+    fn write_str(&mut self, s: &str) -> std::fmt::Result {
+        if s.len() > self.left {
+            self.left = 0;
+            Err(std::fmt::Error)
+        } else {
+            self.left -= s.len();
+            Ok(())
+        }
+    }
+}
+
+/// every way a caller can ask for the Debug text of a value: compact, pretty, with precision / width / sign / zero / hex flags (nested
+/// fields inherit them), and into a writer that runs full at different points. Returns the number of bytes produced.
+fn debug_forms<T: Debug>(r: &T) -> usize {
+    use std::fmt::Write;
+    let n = format!("{:?}", r).len();
+    if n > PRETTY_LIMIT {
+        return n;
+    }
+    let mut total = n + format!("{:#?}", r).len();
+    total += format!("{:.0?}", r).len() + format!("{:.3?}", r).len() + format!("{:.64?}", r).len() + format!("{:#.16?}", r).len();
+    total += format!("{:12?}", r).len() + format!("{:<5?}", r).len() + format!("{:+?}", r).len() + format!("{:08?}", r).len() + format!("{:x?}", r).len() + format!("{:#X?}", r).len();
+    for cap in [0usize, 1, 7, n / 3, n / 2, n.saturating_sub(1), n] {
+        let mut w = Bounded { left: cap };
+        let _ = write!(w, "{:?}", r);
+        let mut w = Bounded { left: cap };
+        let _ = write!(w, "{:#?}", r);
+    }
+    total
+}
+
+/// the same for Display
+fn display_forms<T: std::fmt::Display>(v: &T) -> usize {
+    use std::fmt::Write;
+    let n = format!("{}", v).len();
+    let total = n + format!("{:#}", v).len() + format!("{:.0}", v).len() + format!("{:.3}", v).len() + format!("{:>12}", v).len() + format!("{:<3.1}", v).len() + format!("{:+}", v).len() + format!("{:08}", v).len();
+    for cap in [0usize, 1, n / 2, n.saturating_sub(1)] {
+        let mut w = Bounded { left: cap };
+        let _ = write!(w, "{}", v);
+    }
+    total
+}
 
 /// run one entry point: parse (measured), then format the result while it is alive (measured)
 fn ep<'a, T: Debug>(i: &'a [u8], f: impl FnOnce(&'a [u8]) -> IResult<&'a [u8], T>) -> EpOut {
     let (r, parse) = alloc::measure(|| f(i));
     let cls = classify(&r);
-    let (_s, fmt) = alloc::measure(|| {
-        let n = format!("{:?}", r).len();
-        n + if n <= PRETTY_LIMIT { format!("{:#?}", r).len() } else { 0 }
-    });
+    let (_s, fmt) = alloc::measure(|| debug_forms(&r));
     EpOut { parse, fmt, cls }
 }
 
@@ -167,12 +212,9 @@ fn epd<'a, T: Debug + std::fmt::Display>(i: &'a [u8], f: impl FnOnce(&'a [u8]) -
     let (r, parse) = alloc::measure(|| f(i));
     let cls = classify(&r);
     let (_s, fmt) = alloc::measure(|| {
-        let mut n = format!("{:?}", r).len();
-        if n <= PRETTY_LIMIT {
-            n += format!("{:#?}", r).len();
-        }
+        let mut n = debug_forms(&r);
         if let Ok((_, v)) = &r {
-            n += format!("{}", v).len() + format!("{:#}", v).len();
+            n += display_forms(v);
         }
         n
     });
@@ -241,8 +283,7 @@ trait FmtViaDebug {
 }
 impl<'x, T: Debug> FmtViaDebug for MaybeDebug<'x, T> {
     fn fmt_len(&self) -> usize {
-        let n = format!("{:?}", self.0).len();
-        n + if n <= PRETTY_LIMIT { format!("{:#?}", self.0).len() } else { 0 }
+        debug_forms(self.0)
     }
 }
 trait FmtNotAtAll {
